@@ -33,12 +33,23 @@ import (
 )
 
 type c29Input struct {
-	Kind  string `json:"kind"` // execute | query | request | load | noop | loadchunk
+	Kind  string `json:"kind"` // execute | query | request | load | noop | loadchunk | held | concurrent
 	Batch int    `json:"batch"`
 	Size  int    `json:"size"`
 	Force bool   `json:"force,omitempty"`
-	Msg   []byte `json:"msg"`            // proto encoding of the message handed to the store
+	Msg   []byte `json:"msg,omitempty"`  // proto encoding of the message handed to the store
 	Note  string `json:"note,omitempty"` // human-readable summary
+	// kind held: all items are marshalled first, the results are kept, and only then wrapped and decoded
+	Items []c29Item `json:"items,omitempty"`
+	// kind concurrent: G goroutines send N large compressible requests each (contents derived from Seed)
+	G    int   `json:"g,omitempty"`
+	N    int   `json:"n,omitempty"`
+	Seed int64 `json:"seed,omitempty"`
+}
+
+type c29Item struct {
+	Kind string `json:"kind"` // execute | query | request | load
+	Msg  []byte `json:"msg"`
 }
 
 // ---------------------------------------------------------------- Gallina printers
@@ -250,6 +261,14 @@ func (e *c29Env) send(in c29Input, m pb.Message) ([]byte, error) {
 }
 
 func c29Run(w *vWriter, e *c29Env, in c29Input) {
+	switch in.Kind {
+	case "held":
+		c29RunHeld(w, e, in)
+		return
+	case "concurrent":
+		c29RunConcurrent(w, e, in)
+		return
+	}
 	orig := c29NewMsg(in.Kind)
 	if err := pb.Unmarshal(in.Msg, orig); err != nil {
 		panic(err)
@@ -421,6 +440,277 @@ func c29Run(w *vWriter, e *c29Env, in c29Input) {
 	w.mu.Lock()
 	w.w.Flush()
 	w.mu.Unlock()
+}
+
+
+// ---------------------------------------------------------------- results of Marshal must stay valid
+
+// the Gallina case for one message whose marshalled sub-command / entry were observed as given; gzReal is what the
+// real compressor makes of raw (nil: compression not attempted)
+func c29CoqCase(in c29Input, kind string, orig pb.Message, raw, entry []byte, cmd *proto.Command, gzReal []byte) string {
+	gzTerm := "[]"
+	if gzReal != nil {
+		gzTerm = c29B(gzReal)
+	}
+	subTerm, subVar, sub := c29B(cmd.SubCommand), "", []byte(nil)
+	switch {
+	case bytes.Equal(cmd.SubCommand, raw):
+		subTerm, subVar, sub = "raw", "raw", raw
+	case gzReal != nil && bytes.Equal(cmd.SubCommand, gzReal):
+		subTerm, subVar, sub = "gz", "gz", gzReal
+	}
+	entryTerm := c29B(entry)
+	if subVar != "" && len(sub) > 0 {
+		if i := bytes.Index(entry, sub); i >= 0 {
+			entryTerm = "(" + c29B(entry[:i]) + " ++ " + subVar + " ++ " + c29B(entry[i+len(sub):]) + ")"
+		}
+	}
+	return fmt.Sprintf("(let raw := %s in let gz := %s in Build_case (Build_mcfg %s %s %s) %s gz raw %s %s %s %s)",
+		c29B(raw), gzTerm, coqZ(int64(in.Batch)), coqZ(int64(in.Size)), coqBool(in.Force), c29Body(kind, orig), entryTerm,
+		coqN(uint64(cmd.Type)), coqBool(cmd.Compressed), subTerm)
+}
+
+// Marshal k requests FIRST, keep every result, and only then wrap each into its Command and decode it (a caller
+// that prepares several log entries before appending them; two writers interleaving between Marshal and the copy made
+// by command.Marshal).  Each must still be its own request: marshalling is a function of the request alone.
+func c29RunHeld(w *vWriter, e *c29Env, in c29Input) {
+	s := e.s
+	s.SetRequestCompression(in.Batch, in.Size)
+	s.reqMarshaller.ForceCompression = in.Force
+	type held struct {
+		orig pb.Message
+		sub  []byte
+		z    bool
+		err  error
+	}
+	hs := make([]held, len(in.Items))
+	for i, it := range in.Items {
+		m := c29NewMsg(it.Kind)
+		if err := pb.Unmarshal(it.Msg, m); err != nil {
+			panic(err)
+		}
+		hs[i].orig = m
+		switch x := pb.Clone(m).(type) {
+		case *proto.LoadRequest:
+			hs[i].sub, hs[i].err = command.MarshalLoadRequest(x)
+		case command.Requester:
+			hs[i].sub, hs[i].z, hs[i].err = s.tryCompress(x) // the store's own call of RequestMarshaler.Marshal
+		}
+	}
+	// ... and only now use the results
+	for i, it := range in.Items {
+		h := hs[i]
+		c := VCase{Input: in, Key: fmt.Sprintf("held/%d/%d/%v/%d/%x", in.Batch, in.Size, in.Force, i, it.Msg), Nontrivial: true,
+			Tags: []string{"held-results", "type=" + it.Kind}}
+		fail := func(msg, sig string) {
+			if c.OracleFail == "" {
+				c.OracleFail, c.Sig = msg, sig
+			}
+		}
+		if h.err != nil {
+			c.Inconcl = "marshal: " + h.err.Error()
+			w.Emit(c)
+			continue
+		}
+		cmd := &proto.Command{Type: c29Types[it.Kind], SubCommand: h.sub, Compressed: h.z}
+		entry, err := command.Marshal(cmd)
+		if err != nil {
+			panic(err)
+		}
+		var back proto.Command
+		got := c29NewMsg(it.Kind)
+		if err := command.Unmarshal(entry, &back); err != nil {
+			fail("entry does not decode: "+err.Error(), "C29:entry-undecodable")
+		} else {
+			if it.Kind == "load" {
+				err = command.UnmarshalLoadRequest(back.SubCommand, got.(*proto.LoadRequest))
+			} else {
+				err = command.UnmarshalSubCommand(&back, got)
+			}
+			if err != nil {
+				fail(fmt.Sprintf("item %d of %d marshalled before being used: its bytes no longer decode (%v) - the result of Marshal was overwritten by a later call", i, len(in.Items), err),
+					"C29:marshal-result-overwritten:undecodable")
+			} else if !pb.Equal(got, h.orig) {
+				fail(fmt.Sprintf("item %d of %d marshalled before being used decodes to a different request - the result of Marshal was overwritten by a later call", i, len(in.Items)),
+					"C29:marshal-result-overwritten:other-request")
+			}
+		}
+		// model: what the compressor really makes of this request, asked for (and copied) on its own
+		raw, _ := pb.Marshal(h.orig)
+		var gzReal []byte
+		if it.Kind == "load" {
+			g, _ := command.MarshalLoadRequest(h.orig.(*proto.LoadRequest))
+			gzReal = bytes.Clone(g)
+		} else {
+			fm := *s.reqMarshaller
+			fm.ForceCompression = true
+			ss := h.orig.(command.Requester).GetRequest().GetStatements()
+			attempted := len(ss) >= in.Batch
+			for _, st := range ss {
+				attempted = attempted || len(st.Sql) >= in.Size
+			}
+			if attempted {
+				if g, z, err := fm.Marshal(h.orig.(command.Requester)); err == nil && z {
+					gzReal = bytes.Clone(g)
+				}
+			}
+		}
+		c.Coq = c29CoqCase(in, it.Kind, h.orig, raw, entry, cmd, gzReal)
+		c.Tags = append(c.Tags, fmt.Sprintf("compressed=%v", h.z))
+		w.Emit(c)
+	}
+}
+
+// G goroutines send N large, really compressed requests each through the live store; afterwards every entry is read
+// back from the log: the entries must be exactly the requests sent (each once).
+func c29RunConcurrent(w *vWriter, e *c29Env, in c29Input) {
+	s := e.s
+	s.SetRequestCompression(in.Batch, in.Size)
+	s.reqMarshaller.ForceCompression = in.Force
+	rng := rand.New(rand.NewSource(in.Seed))
+	total := in.G * in.N
+	sent := make([]pb.Message, total)
+	kinds := make([]string, total)
+	for i := range sent {
+		kind := []string{"execute", "query", "request"}[i%3]
+		sqlText := fmt.Sprintf("INSERT INTO c29c(id, v) VALUES(%d, '%s')", i, c29Text(rng, in.Size+rng.Intn(3*in.Size+1), true))
+		r := &proto.Request{Statements: []*proto.Statement{{Sql: sqlText, Parameters: []*proto.Parameter{{Value: &proto.Parameter_I{I: int64(i)}, Name: "id"}}}}}
+		sent[i], kinds[i] = c29Wrap(kind, r), kind
+	}
+	c := VCase{Input: in, Key: fmt.Sprintf("concurrent/%d/%d/%d/%d/%d", in.G, in.N, in.Batch, in.Size, in.Seed), Nontrivial: true,
+		Tags: []string{"concurrent-writers"}}
+	// provisional verdict (see c29Run): an undecodable entry kills the process in the FSM
+	w.mu.Lock()
+	w.w.Flush()
+	off, _ := w.f.Seek(0, io.SeekCurrent)
+	w.mu.Unlock()
+	w.Emit(VCase{Input: in, Key: c.Key, OracleFail: "the process died while concurrent compressed requests were written to the log and applied (an entry could not be decoded as what was sent)",
+		Sig: "C29:entry-kills-receiver:concurrent"})
+	w.mu.Lock()
+	w.w.Flush()
+	w.mu.Unlock()
+	before := s.raft.LastIndex()
+	done := make(chan error, in.G)
+	for g := 0; g < in.G; g++ {
+		go func(g int) {
+			ctx := context.Background()
+			var first error
+			for j := 0; j < in.N; j++ {
+				var err error
+				switch x := pb.Clone(sent[g*in.N+j]).(type) {
+				case *proto.ExecuteRequest:
+					_, _, err = s.Execute(ctx, x)
+				case *proto.QueryRequest:
+					_, _, _, err = s.Query(ctx, x)
+				case *proto.ExecuteQueryRequest:
+					_, _, _, err = s.Request(ctx, x)
+				}
+				if err != nil && first == nil {
+					first = err
+				}
+			}
+			done <- first
+		}(g)
+	}
+	var apiErr error
+	for g := 0; g < in.G; g++ {
+		if err := <-done; err != nil && apiErr == nil {
+			apiErr = err
+		}
+	}
+	w.mu.Lock()
+	w.w.Flush()
+	w.f.Truncate(off)
+	w.f.Seek(off, io.SeekStart)
+	w.next--
+	w.mu.Unlock()
+
+	seen := make([]int, total)
+	fail := func(msg, sig string) {
+		if c.OracleFail == "" {
+			c.OracleFail, c.Sig = msg, sig
+		}
+	}
+	entries := 0
+	for i := before + 1; i <= s.raft.LastIndex(); i++ {
+		var l raft.Log
+		if err := s.raftLog.GetLog(i, &l); err != nil || l.Type != raft.LogCommand {
+			continue
+		}
+		entries++
+		var cmd proto.Command
+		if err := command.Unmarshal(l.Data, &cmd); err != nil {
+			fail("log entry does not decode: "+err.Error(), "C29:concurrent:entry-undecodable")
+			continue
+		}
+		var got pb.Message
+		switch cmd.Type {
+		case proto.Command_COMMAND_TYPE_EXECUTE:
+			got = &proto.ExecuteRequest{}
+		case proto.Command_COMMAND_TYPE_QUERY:
+			got = &proto.QueryRequest{}
+		case proto.Command_COMMAND_TYPE_EXECUTE_QUERY:
+			got = &proto.ExecuteQueryRequest{}
+		default:
+			fail(fmt.Sprintf("entry of type %v among request entries", cmd.Type), "C29:concurrent:wrong-command-type")
+			continue
+		}
+		if err := command.UnmarshalSubCommand(&cmd, got); err != nil {
+			fail(fmt.Sprintf("log index %d: sub-command does not decode: %v", i, err), "C29:concurrent:subcommand-undecodable")
+			continue
+		}
+		id := -1
+		if ss := got.(command.Requester).GetRequest().GetStatements(); len(ss) == 1 && len(ss[0].Parameters) == 1 {
+			id = int(ss[0].Parameters[0].GetI())
+		}
+		if id < 0 || id >= total || !pb.Equal(got, sent[id]) {
+			fail(fmt.Sprintf("log index %d decodes to a request that was never sent", i), "C29:concurrent:entry-is-no-sent-request")
+			continue
+		}
+		seen[id]++
+	}
+	if c.OracleFail == "" {
+		if apiErr != nil && entries < total {
+			c.Inconcl = fmt.Sprintf("only %d of %d requests reached the log: %v", entries, total, apiErr)
+		} else {
+			for id, n := range seen {
+				if n != 1 {
+					fail(fmt.Sprintf("request %d (%s) appears %d times in the log (%d entries for %d requests)", id, kinds[id], n, entries, total), "C29:concurrent:entries-not-the-requests-sent")
+					break
+				}
+			}
+		}
+	}
+	w.Emit(c)
+	w.mu.Lock()
+	w.w.Flush()
+	w.mu.Unlock()
+}
+
+// distinct large compressible requests (and a few small ones) for a held batch
+func c29GenHeld(rng *rand.Rand, size int, loadData []byte) []c29Item {
+	var items []c29Item
+	k := 2 + rng.Intn(6)
+	for i := 0; i < k; i++ {
+		kind := []string{"execute", "query", "request"}[rng.Intn(3)]
+		l := size + rng.Intn(4*size)
+		if rng.Intn(5) == 0 {
+			l = rng.Intn(size) // not compressed: must be unaffected
+		}
+		r := &proto.Request{Statements: []*proto.Statement{{Sql: fmt.Sprintf("/* %d */ ", rng.Intn(1000)) + c29Text(rng, l, true),
+			Parameters: []*proto.Parameter{{Value: &proto.Parameter_I{I: int64(i)}}}}}}
+		b, _ := pb.Marshal(c29Wrap(kind, r))
+		items = append(items, c29Item{Kind: kind, Msg: b})
+	}
+	if loadData != nil {
+		for i := 0; i < 2; i++ {
+			d := append(bytes.Clone(loadData), byte(i), byte(i), byte(i))
+			b, _ := pb.Marshal(&proto.LoadRequest{Data: d[:len(d)-i*100]})
+			p := rng.Intn(len(items) + 1)
+			items = append(items[:p:p], append([]c29Item{{Kind: "load", Msg: b}}, items[p:]...)...)
+		}
+	}
+	return items
 }
 
 // ---------------------------------------------------------------- generators
@@ -644,6 +934,30 @@ func TestVerif_C29(t *testing.T) {
 		emit(kind, 0, 0, false, c29Wrap(kind, &proto.Request{}), "zero thresholds, no statements")
 	}
 	emit("load", 512, 4096, false, &proto.LoadRequest{Data: c29SQLiteFile(t, 3)}, "small database")
+
+	// results of Marshal kept while further requests are marshalled (sequential, deterministic)
+	{
+		pseudo := []byte(strings.Repeat("SQLite format 3 - not really; page filler. ", 14))
+		nb := vN(8, 200)
+		for i := 0; i < nb; i++ {
+			size := []int{40, 64, 120}[rng.Intn(3)]
+			var ld []byte
+			if i == 1 || (i > 8 && i%10 == 0) {
+				ld = pseudo
+			}
+			c29Run(w, e, c29Input{Kind: "held", Batch: 512, Size: size, Force: i%7 == 3, Items: c29GenHeld(rng, size, ld)})
+		}
+		// a pair is enough: the second result reuses what the first one pointed to
+		r1 := &proto.Request{Statements: []*proto.Statement{{Sql: strings.Repeat("INSERT INTO foo(name) VALUES('fiona'); ", 6)}}}
+		r2 := &proto.Request{Statements: []*proto.Statement{{Sql: strings.Repeat("DELETE FROM foo WHERE name='declan'; ", 9)}}}
+		b1, _ := pb.Marshal(c29Wrap("execute", r1))
+		b2, _ := pb.Marshal(c29Wrap("execute", r2))
+		c29Run(w, e, c29Input{Kind: "held", Batch: 512, Size: 64, Items: []c29Item{{Kind: "execute", Msg: b1}, {Kind: "execute", Msg: b2}}})
+	}
+	// concurrent writers on the live store
+	for i, nc := 0, vN(1, 6); i < nc; i++ {
+		c29Run(w, e, c29Input{Kind: "concurrent", Batch: 512, Size: 64, G: 8, N: vN(40, 150), Seed: rng.Int63()})
+	}
 
 	// the exact boundary of "smaller": requests whose gzip output is one byte shorter than, as long as, and one byte
 	// longer than the uncompressed encoding (found by search; compression attempted because of the size threshold)
